@@ -21,6 +21,7 @@ PRELUDE = (
     'def string N5 = 5',
     'def list L = a b',
     'def path P = -rel-act p.txt',
+    'def path PD = -rel-home home-dir',
     'def line-matcher LM = constant true',
     'def file-matcher FM = constant true',
     'def files-matcher FSM = constant true',
@@ -155,6 +156,11 @@ BASES = (
     ('act', [PA('prog.py'), Q('arg1'), Q('"arg @[S]@"'), '-existing-file', '-rel-home', PA('existing.txt')]),
     ('act', ['-python', Q('-c'), ':>', RAW('import sys; sys.exit(0)')]),
     ('act', ['@', Y('PR', 'program'), Q('arg')]),
+    ('act', ['-rel', Y('PD', 'path'), PA('prog2.py'), Q("'arg 1'"), '-existing-file', '-rel', Y('PD', 'path'), PA('x.txt')]),
+    ('act', ['-rel-home', PA('prog.py'), '-existing-dir', '-rel-act', PA('.'), '-existing-path', PA('@[PD]@/x.txt')]),
+    ('act', [PA('prog.py'), Q('arg')], dict(conf='actor = file % python3')),
+    ('act', [PA('@[PD]@/prog2.py'), Q("'arg 1'"), Q('@[S]@')], dict(conf='actor = file -python')),
+    ('act', [RAW('import sys'), '\n', RAW("sys.stdout.write('@[S]@')")], dict(conf='actor = source -python')),
     # ---- other phases
     ('before-assert', ['file', PA('ba.txt'), '=', Q('x')]),
     ('before-assert', ['run', '-python', Q('-c'), Q("'pass'")]),
@@ -201,9 +207,12 @@ def line_of(tokens) -> str:
 
 
 def base_parts(base):
-    """-> (phase, tokens, act source of the surrounding case)"""
+    """-> (phase, tokens, act source of the surrounding case [, instruction of the conf phase])"""
     opts = base[2] if len(base) > 2 else {}
-    return base[0], base[1], opts.get('act', ACT)
+    act = opts.get('act', ACT)
+    if 'conf' in opts:
+        return base[0], base[1], (act, opts['conf'])
+    return base[0], base[1], act
 
 
 def _words(text: str):
@@ -244,6 +253,9 @@ def use_of(tokens):
 def case_text(phase: str, instruction: str, act=ACT, prelude=PRELUDE, use=None):
     """-> (text of the test case, 1-based number of the first line of `instruction`, line number of the use or None)"""
     secs = {p: [] for p in PHASES}
+    if isinstance(act, tuple):
+        act, conf = act
+        secs['conf'] = [conf]
     secs['setup'] = needed_prelude(prelude, instruction + '\n' + act + '\n' + (use[1] if use else ''))
     secs['act'] = [] if phase == 'act' else [act]
     out = []
@@ -400,23 +412,24 @@ def mutants_of(tokens, phase: str, level: int, salt: int = 0):
             continue
         if text not in seen or (exp == MISTAKE and seen[text][2] != MISTAKE):
             seen[text] = (name, text, exp)
-    return _select(list(seen.values()), level, salt)
+    return _select(list(seen.values()), level, salt, dense=(phase == 'act'))
 
 
 # how many mutants of one operator are kept per base (level 0, level 1); the choice rotates with the base index so
 # that over all bases every catalogue value and every position is used
 _KEEP = {
     'delete': (0, 99), 'duplicate': (0, 3), 'transpose': (0, 3), 'truncate': (0, 8),
-    'open-quote': (0, 5), 'close-quote': (0, 2), 'reserved': (0, 3), 'append-open-quote': (0, 2),
+    'open-quote': (0, 8), 'close-quote': (0, 2), 'reserved': (0, 3), 'append-open-quote': (0, 2),
     'int-invalid': (1, 99), 'int-extreme': (1, 99), 'int-eval-raises': (1, 99),
     'regex-invalid': (1, 99), 'regex-weird': (1, 99), 'glob': (2, 99),
-    'str-wrong': (1, 6), 'str-weird': (0, 8), 'path-wrong': (0, 2), 'path-weird': (0, 8),
+    'str-wrong': (1, 6), 'str-weird': (0, 8), 'path-wrong': (1, 2), 'path-weird': (0, 8),
     'sym-wrong-type': (1, 99), 'sym-undefined': (1, 99), 'sym-illegal-name': (0, 99),
 }
 # quick tier: one of these operators per base, in rotation
 _GENERIC_QUICK = ('delete', 'open-quote', 'duplicate', 'truncate', 'transpose', 'open-quote', 'reserved', 'close-quote',
-                  'append-open-quote', 'truncate', 'path-wrong', 'open-quote', 'delete')
+                  'append-open-quote', 'truncate', 'open-quote', 'delete')
 _WEIRD_QUICK = ('str-weird', 'path-weird')
+_WRONG_QUICK = ('str-wrong', 'sym-wrong-type', 'path-wrong', 'sym-undefined')
 
 
 def _op_of(name: str) -> str:
@@ -429,7 +442,7 @@ def _op_of(name: str) -> str:
     return op
 
 
-def _select(muts, level: int, salt: int):
+def _select(muts, level: int, salt: int, dense: bool = False):
     groups = {}
     order = []
     for m in muts:
@@ -446,6 +459,14 @@ def _select(muts, level: int, salt: int):
             keep = 1 if _GENERIC_QUICK[salt % len(_GENERIC_QUICK)] == op else 0
         if level == 0 and op in _WEIRD_QUICK:
             keep = 1 if _WEIRD_QUICK[salt % len(_WEIRD_QUICK)] == op else 0
+        if level == 0 and op in _WRONG_QUICK:
+            keep = 1 if op in (_WRONG_QUICK[salt % 4], _WRONG_QUICK[(salt + 1) % 4]) else 0
+        if dense:
+            # the act phase is parsed by the actor, outside the net around instruction parsers: more of these
+            if level == 0 and op in ('open-quote', 'truncate', 'delete'):
+                keep = 2
+            if level == 1:
+                keep = 99 if op in ('open-quote', 'truncate', 'delete', 'duplicate', 'transpose') else keep * 3
         if keep >= len(ms):
             out.extend(ms)
             continue
